@@ -36,8 +36,17 @@ type FuncResult struct {
 func (p *Program) VerifyFunc(fc *FuncContract) (res *FuncResult) {
 	res = &FuncResult{Name: fc.Name, Pkg: fc.Pkg, Props: fc.Props, Assumes: fc.Assumes}
 	fn := p.LookupFunc(fc.Pkg, fc.Name)
+	label := pkgShort(fc.Pkg) + "." + fc.Name
+	resolves := &Obligation{Name: label + ":contract:resolves", Kind: "contract", Func: label, Goal: TTrue, Status: "unsat", Solver: "front-end",
+		Text: "every clause of the contract resolves and type-checks against the function's current source", Pos: fmt.Sprintf("%s:%d", fc.File, fc.Line)}
+	unresolved := func(msg string) {
+		resolves.Goal, resolves.Status, resolves.Model = TFalse, "unresolved", msg
+		resolves.Text += " — " + msg
+	}
 	if fn == nil {
-		res.Fault = fmt.Sprintf("function %s.%s not found", fc.Pkg, fc.Name)
+		// the function the contract is written for is gone (removed or renamed): its obligations cannot be generated
+		unresolved(fmt.Sprintf("function %s.%s not found", fc.Pkg, fc.Name))
+		res.Obls = []*Obligation{resolves}
 		return
 	}
 	if fn.Blocks == nil {
@@ -49,10 +58,15 @@ func (p *Program) VerifyFunc(fc *FuncContract) (res *FuncResult) {
 	defer func() {
 		if r := recover(); r != nil {
 			if ee, ok := r.(evalErr); ok {
-				res.Fault = string(ee)
+				// the contract no longer fits the code (an identifier, field or call site it names is gone):
+				// a named obligation that held on the unchanged tree fails
+				unresolved(string(ee))
 				if os.Getenv("GOVC_DEBUG") != "" {
-					res.Fault += "\n" + string(debug.Stack())
+					fmt.Fprintln(os.Stderr, string(ee)+"\n"+string(debug.Stack()))
 				}
+				res.Obls = append(x.Obls, resolves)
+				res.Notes = x.Notes
+				return
 			} else {
 				res.Fault = fmt.Sprintf("executor panic: %v\n%s", r, debug.Stack())
 			}
@@ -62,7 +76,8 @@ func (p *Program) VerifyFunc(fc *FuncContract) (res *FuncResult) {
 	}()
 	st := x.initState()
 	x.Run(st)
-	res.Obls = x.Obls
+	x.siteReachedObligations()
+	res.Obls = append(x.Obls, resolves)
 	res.Notes = x.Notes
 	res.Paths = x.paths + 1
 	res.Returns = x.retCount
@@ -200,9 +215,6 @@ func (p *Program) VerifyLemma(fc *FuncContract) (res *FuncResult) {
 		if r := recover(); r != nil {
 			if ee, ok := r.(evalErr); ok {
 				res.Fault = string(ee)
-				if os.Getenv("GOVC_DEBUG") != "" {
-					res.Fault += "\n" + string(debug.Stack())
-				}
 			} else {
 				res.Fault = fmt.Sprintf("executor panic: %v\n%s", r, debug.Stack())
 			}
